@@ -217,6 +217,8 @@ OutMulti(ss) ==
     [pdc     |-> ProductDontCare(ss),
      product |-> IF ProductDontCare(ss) THEN <<>> ELSE Product(ss),
      concat  |-> Concat(ss), clen |-> ConcatLen(ss),
+     fneed   |-> [i \in DOMAIN ss |-> LET n == FilterNeed(ss[i]) IN
+                     [keys |-> SelectSeq(NameOrder, LAMBDA k : k \in n.keys), proj |-> n.proj]],
      ordered |-> \A i \in DOMAIN ss : OrderFixedOf(ss[i])]
 
 KeySeqs(s) == {SelectSeq(NameOrder, LAMBDA k : k \in K) : K \in (SUBSET AllKeys(s)) \ {{}}}
@@ -329,6 +331,7 @@ InvLen         == \A s \in SweepsOf(case) : LawLen(s)
 InvProduct     == case.kind = "multi" => DisjointKeys(case.ss) /\ LawProduct(case.ss)
                                           /\ (~ProductDontCare(case.ss) => LawLen(Merge(case.ss)))
 InvConcat      == case.kind = "multi" => LawConcat(case.ss)
+InvFilterSum   == case.kind = "multi" => \A i \in DOMAIN case.ss : LawFilteredSumCoversLeaf(case.ss[i])
 InvSums        == case.kind = "multi" =>          \* every sum expression over the operands in order is the concatenation
                      LET L == OperandLists(case.ss)  N == OperandLens(case.ss) IN
                      \A e \in Shapes : EvalSum(e, L) = out.concat /\ LenSum(e, N) = out.clen
